@@ -395,7 +395,7 @@ def sync_states(
         _get_empty_metric_state_collection(
             metrics_traversal_order=metrics_traversal_order
         )
-        for _ in range(dist.get_world_size())
+        for _ in range(dist.get_world_size(process_group))
     ]
 
     for metric_name, state_name in metrics_traversal_order:
